@@ -425,10 +425,11 @@ func sizes(tier string) (batches, per int) {
 
 func init() {
 	props["C07"] = func(r *Result, d *drv.Driver, tier string, seed int64, replay string) {
-		r.Rule = sessRule("C07 oracle: one response per request in order echoing version/correlation/batch count/operations/IDs with a current timestamp, else close; no later request processed first.")
+		r.Rule = sessRule("C07 oracle: one response per request in order echoing version/correlation/batch count/operations/IDs with a current timestamp, else close; no later request processed first; plus response writes that fail once (temporary or permanent error, after 0..24 bytes went out): the peer sees one response or a closed connection, nothing else.")
 		b, p := sizes(tier)
 		sessionCorrespondence(r, d, seed*31+7, b, p, scriptOpts{maxArr: 8, maxItems: 5}, 150*time.Millisecond, oracleC07)
 		c07Timestamp(r)
+		c07WriteFaults(r)
 	}
 	props["C08"] = func(r *Result, d *drv.Driver, tier string, seed int64, replay string) {
 		r.Rule = sessRule("C08 oracle: each registered item invoked exactly once in order with its payload; each item's status/reason/message/payload is its own handler's outcome; the process survives (all runs are in-process); plus batches in which a handler panics with values hostile to rendering (panicking Error/String methods, typed nil errors), and batches in which a handler returns a first result together with its error (half-filled, typed nil, unencodable), and batches with a handler slower than the server's timeouts.")
@@ -437,6 +438,7 @@ func init() {
 		c08EvilPanics(r)
 		c08ValueWithError(r)
 		c08SlowHandlers(r)
+		c08Messages(r)
 	}
 	props["C09"] = func(r *Result, d *drv.Driver, tier string, seed int64, replay string) {
 		r.Rule = sessRule("C09 oracle: no call/response after a failed session auth; no call for rejected or uncheckable credentials; every call sees its own connection's session id/auth and its own request's auth value; plus one long-lived connection across a replacement of the request-authentication callback (rejecting / nil / other value): the callback in force when the request arrives decides.")
@@ -456,12 +458,13 @@ func init() {
 		sessionCorrespondence(r, d, seed*31+10, b, p+2, scriptOpts{maxArr: 5, maxItems: 3, allowStall: true}, 60*time.Millisecond, oracleC10)
 	}
 	props["C15"] = func(r *Result, d *drv.Driver, tier string, seed int64, replay string) {
-		r.Rule = sessRule("C15 oracle: with ReadTimeout every wait for a request is immediately preceded by a fresh read deadline, with WriteTimeout every response by a fresh write deadline, with zero timeouts no deadline is ever set; a peer stalling inside a request is disconnected when the real deadline (60 ms) expires; plus the same rules observed on real TLS connections (handshake included) for every zero/non-zero combination of the two timeouts, on the server side and on the Client side; plus peers falling silent before the first request, at a message boundary after 1..3 exchanges, and inside the next item header or body (plain and TLS): the server must hang up by itself at the deadline.")
+		r.Rule = sessRule("C15 oracle: with ReadTimeout every wait for a request is immediately preceded by a fresh read deadline, with WriteTimeout every response by a fresh write deadline, with zero timeouts no deadline is ever set; a peer stalling inside a request is disconnected when the real deadline (60 ms) expires; plus the same rules observed on real TLS connections (handshake included) for every zero/non-zero combination of the two timeouts, on the server side and on the Client side; plus peers falling silent before the first request, at a message boundary after 1..3 exchanges, and inside the next item header or body (plain and TLS): the server must hang up by itself at the deadline; a request trickling in with every gap below ReadTimeout but the whole above it is not answered.")
 		b, p := sizes(tier)
 		sessionCorrespondence(r, d, seed*31+15, b, p, scriptOpts{maxArr: 8, maxItems: 2, allowStall: true}, 60*time.Millisecond, oracleC15)
 		c15TLS(r, d)
 		c15Client(r)
 		c15Partial(r)
 		c15Idle(r)
+		c15Trickle(r)
 	}
 }
